@@ -35,6 +35,8 @@ def run(rep, tier, prop="C01", extra_kinds=()):
     rep.rule(P + ".5", "array values are hoisted into declarations whose header and rows are in the language of arrayvar for the array's own dtype, one fresh declaration per array value, inserted before the statements", floor=10)
     if res:
         common.guarded(rep, P + ".5", tser.arrays, rep, P + ".5", ix, M, res[0])
+    from . import c05
+    c05.aliasing_lint(rep, ix)          # row-major traversal only, no aliased rows
     # tdm programs: predicate agreement and variable section (shared with C15)
     from . import c15
     common.guarded(rep, "C15.1", c15.c15_1, rep, ix)
